@@ -437,3 +437,7 @@ for n, w in (("c09_bc_a2w", "broadcast N=1, skeleton 2w (send recv0 send add_str
       "10 steps, sequential", rules=SEQRULES)
     _opt(n, "the history saw Disconnected")
 _opt("c09_bc_a4", "the history wrapped the ring", "the history hit Full")
+H("c08_mp_blk00_twodrops_lap", W, "C08", ["C08", "C07", "C12"], "thorough",
+  "mpmc N=1 BlockingWait(0,0), lapped ring: blocked recv while the last two sender handles are dropped, nesting depth 2 (one drop preempted everywhere by the other, both inside the waiter's wait)",
+  "depth 2, budget 2", rules=WRULES, timeout=3000)
+_opt("c08_mp_blk00_twodrops_lap", "a waiter was legitimately left blocked", "the blocked receiver returned a value")
